@@ -134,7 +134,7 @@ func c15Pool(r *mon.Rand, corpus []logenc.Group, hostile []string, n int) []loge
 			}
 			pool = append(pool, g)
 		default:
-			pool = append(pool, logenc.GenSyscallGroup(r, logenc.EventOpts{Mode: -1, BadModes: true}))
+			pool = append(pool, logenc.GenSyscallGroup(r, logenc.EventOpts{Mode: -1, BadModes: true, DualSockaddr: true}))
 		}
 	}
 	return pool
@@ -273,6 +273,27 @@ func c15History(c *mon.Ctx, r *mon.Rand, pool []logenc.Group, nops int) (key str
 		}
 		c.Add("rechecks", int64(len(held)))
 	}
+	// at the end every group that was coalesced is coalesced four more times: a result that depends on chance
+	// (map iteration order) differs sooner or later
+	for i := range pool {
+		if !done[i] {
+			continue
+		}
+		for k := 0; k < 4; k++ {
+			var e *aucoalesce.Event
+			var err error
+			if p, st := mon.Try(func() { e, err = aucoalesce.CoalesceMessages(msgs[i]) }); p != nil {
+				fail("panic:"+mon.PanicSite(st), "CoalesceMessages panicked on group %d: %v\n%s", i, p, st)
+				return
+			}
+			c.Add("coalesce_calls", 1)
+			c.Add("repeated_coalesce_calls", 1)
+			if sig := eventSig(e, err); sig != firstSig[i] {
+				fail("second-coalesce-differs", "coalescing the same messages (group %d) again gives a different event: %s", i, diffSig(firstSig[i], sig))
+				return
+			}
+		}
+	}
 	return
 }
 
@@ -282,7 +303,7 @@ func c15Concurrent(c *mon.Ctx) {
 	var pool []logenc.Group
 	pool = append(pool, corpus...)
 	for len(pool) < c.Pick(400, 4000) {
-		pool = append(pool, logenc.GenSyscallGroup(r, logenc.EventOpts{Mode: -1, BadModes: true}))
+		pool = append(pool, logenc.GenSyscallGroup(r, logenc.EventOpts{Mode: -1, BadModes: true, DualSockaddr: true}))
 	}
 	// every named record type as the first record of compound events with three different syscalls
 	for _, typ := range c15Types {
@@ -368,7 +389,7 @@ func c15Concurrent(c *mon.Ctx) {
 func init() {
 	register(&mon.CheckSpec{
 		ID: "C15", Level: "exploration",
-		Rule: "cases = seeded operation histories over a pool of 6-12 message groups (generated SYSCALL groups and single records with unique values, compound events that share one first record type - every named type in turn - with different syscalls, the repo's 47 recorded events, groups of hostile mutated text): CoalesceMessages(i), the same again, ResolveIDs(e_j) through the global caches (names injected with HardcodeUsers/Groups for determinism), and a re-check of EVERY event returned so far after every operation. Deep copies of Data()/Tags()/ToMapStr() of every input message taken before its first use must equal the values afterwards; a repeated coalesce must give an equal event (JSON + sorted multiset of warning texts); every retained event must equal its own snapshot at every later step. A second phase under the race detector coalesces and resolves different groups (incl. EXECVE records with 1..N arguments in ascending order) from 16 goroutines - the FIRST round on the cold process, before anything was coalesced sequentially, so lazily built global state is built by racing goroutines - and compares with a sequential reference computed afterwards (which must itself be stable). distinct_nontrivial = distinct histories (by pool text and op list) that contain a repeated coalesce or a ResolveIDs while other events are retained.",
+		Rule: "cases = seeded operation histories over a pool of 6-12 message groups (generated SYSCALL groups and single records with unique values, compound events that share one first record type - every named type in turn - with different syscalls, the repo's 47 recorded events, groups of hostile mutated text): CoalesceMessages(i), the same again (and four more times at the end of the history; some groups carry two SOCKADDR records of different families), ResolveIDs(e_j) through the global caches (names injected with HardcodeUsers/Groups for determinism), and a re-check of EVERY event returned so far after every operation. Deep copies of Data()/Tags()/ToMapStr() of every input message taken before its first use must equal the values afterwards; a repeated coalesce must give an equal event (JSON + sorted multiset of warning texts); every retained event must equal its own snapshot at every later step. A second phase under the race detector coalesces and resolves different groups (incl. EXECVE records with 1..N arguments in ascending order) from 16 goroutines - the FIRST round on the cold process, before anything was coalesced sequentially, so lazily built global state is built by racing goroutines - and compares with a sequential reference computed afterwards (which must itself be stable). distinct_nontrivial = distinct histories (by pool text and op list) that contain a repeated coalesce or a ResolveIDs while other events are retained.",
 		Assumptions: []string{
 			"the ORDER of Event.Warnings is not asserted (they are produced while ranging over maps); warnings are compared as a sorted multiset",
 			"ResolveIDs may change the event it is given; all other retained events and all input messages must stay equal",
